@@ -12,6 +12,7 @@ THEOREMS = [
     "Pedal.SandboxExec.c05_discharges_c04_hypothesis",
     "Pedal.SandboxExec.c05_restored_after_history",
     "Pedal.SandboxExec.c05_ladder_depth_independent",
+    "Pedal.SandboxExec.c05_discharges_c04_depth_hypothesis",
     "Pedal.SandboxExec.c05_restored_when_nested",
     "Pedal.SandboxExec.c05_restored_after_nested",
     "Pedal.SandboxExec.c05_restored_after_nested_history",
